@@ -95,6 +95,7 @@ func (f *FileOutputHandler) Write(
 					Hash:      fileHash,
 					SizeBytes: fileInfo.Size(),
 				},
+				IsExecutable: fileInfo.Mode()&0111 != 0,
 			},
 		},
 	}, nil
@@ -112,7 +113,7 @@ func (f *FileOutputHandler) Load(
 	// If the local hash is the same as the cached one we don't need to
 	// load the file from the CAS
 	if err == nil && existingHash == output.GetFile().GetDigest().GetHash() {
-		return nil
+		return setFileMode(absOutputPath, output.GetFile().GetIsExecutable())
 	}
 
 	progress := tracker
@@ -157,5 +158,21 @@ func (f *FileOutputHandler) Load(
 		return err
 	}
 
-	return nil
+	return setFileMode(absOutputPath, output.GetFile().GetIsExecutable())
+}
+
+// setFileMode restores the executable bit that was recorded when the output was cached
+func setFileMode(path string, isExecutable bool) error {
+	info, err := os.Stat(path)
+	if err != nil {
+		return err
+	}
+	mode := info.Mode().Perm() &^ 0111
+	if isExecutable {
+		mode |= 0111
+	}
+	if mode == info.Mode().Perm() {
+		return nil
+	}
+	return os.Chmod(path, mode)
 }
